@@ -42,7 +42,10 @@ func (path Path) String() string {
 
 func (path *Path) UnmarshalJSON(b []byte) error {
 	var vs []interface{}
-	err := json.Unmarshal(b, &vs)
+	// numbers are kept as written: through float64 an index above 2^53 would be rounded
+	dec := json.NewDecoder(bytes.NewReader(b))
+	dec.UseNumber()
+	err := dec.Decode(&vs)
 	if err != nil {
 		return err
 	}
@@ -54,6 +57,16 @@ func (path *Path) UnmarshalJSON(b []byte) error {
 			*path = append(*path, PathName(v))
 		case int:
 			*path = append(*path, PathIndex(v))
+		case json.Number:
+			if i, err := v.Int64(); err == nil {
+				*path = append(*path, PathIndex(int(i)))
+			} else {
+				f, err := v.Float64()
+				if err != nil {
+					return err
+				}
+				*path = append(*path, PathIndex(int(f)))
+			}
 		case float64:
 			*path = append(*path, PathIndex(int(v)))
 		default:
